@@ -1,12 +1,12 @@
 SPECIFICATION Spec
 CONSTANTS KnownDevs = {}
 INVARIANTS
-  C09_QerValuesAsSignalled
-  C09_SessionQerSound
-  C09_Up4PeakRatesAsSignalled
   Up4Envelope
   InEnvelope
   EnvDistinctMatchKeys
+  C09_QerValuesAsSignalled
+  C09_SessionQerSound
+  C09_Up4PeakRatesAsSignalled
 POSTCONDITION TraceAccepted
 ALIAS AliasC09
 CHECK_DEADLOCK FALSE
